@@ -7,7 +7,7 @@ the final macro state) and, for spec sanity, through gcc -E; the H-dir hook trac
 same runs and of the shipped tests / stub headers is validated against CondInclTrace."""
 import os, re, json, subprocess, random
 from ..common import MachineryError, REPO, NCPU
-from .. import build, tlc, run
+from .. import build, tlc, run, condexpr
 
 SPELL = {
     "T": ["1", "2 > 1", "(1)", "!0", "1 || 0", "7"],
@@ -21,6 +21,11 @@ SPELL = {
     "H": ['__has_include("vinc.h")', '__has_include("vinc.h") && 1', 'defined(__has_include) && __has_include("vinc.h")'],
     "J": ['__has_include("no_such_file_anywhere.h")', '__has_include("no_such_file_anywhere.h") || 0'],
 }
+# classes T F D N V U also draw from vf/condexpr.py: ~2 600 integer expressions over literals in every base,
+# digit separators, suffixes, character literals, ?:, comparisons, M, defined(M) and undefined identifiers,
+# each with its truth vector over the three states of M, validated against gcc -E on every run
+for _c in "TFDNVU":
+    SPELL[_c] = SPELL[_c] + condexpr.TABLE[_c]
 PROLOGUE = ["#define SELF SELF", "#define PING PONG", "#define PONG PING"]
 # (cfg, simulate traces per worker or None)
 CFGS = {"quick": [("CondIncl_quick", None), ("CondIncl_deep", None), ("CondIncl_sim", 1500)],
@@ -90,6 +95,7 @@ def expected(rec):
 def run_check(ctx):
     build.ensure("hooked")
     tier = ctx.tier
+    condexpr.validate_gcc(ctx.tmp)      # MachineryError if a spelling's truth vector disagrees with gcc -E
     progs = []
     seen = set()
     for cfg, sim in CFGS[tier]:
